@@ -89,6 +89,7 @@ def shard(i, n, args):
     tier = args[0]
     t0 = time.time()
     mm, py = ctx.load()
+    mm = MM(mm.doc, open_extra=())  # labels follow the metamodel read strictly
     env = envelopes(mm)
     # run history inside this process: a different (evolved) model is generated first - its vectors are
     # judged against ITS metamodel - then the model under test; nothing may carry over
@@ -106,7 +107,7 @@ def shard(i, n, args):
             import shutil
 
             shutil.rmtree(tmpd, ignore_errors=True)
-        mmB = MM(docB)
+        mmB = MM(docB, open_extra=())
         envB = envelopes(mmB)
         for fname, content in vB:
             m = NAME_RE.match(fname)
